@@ -286,7 +286,7 @@ def mutate_value(
             if attr in used_attrs:
                 continue
             if attr_value is not MISSING:
-                setattr(value, attr, attr_value)
+                _set_attr(value, attr, attr_value, private_copy=not inplace)
     elif attrs:
         raise ValueError("Cannot use attrs on a missing value without a constructor.")
 
@@ -301,9 +301,20 @@ def mutate_value(
         for attr, attr_transform in attr_transforms.items():
             transformed_value = attr_transform(getattr(value, attr, MISSING))
             if transformed_value is not MISSING:
-                setattr(value, attr, transformed_value)
+                _set_attr(value, attr, transformed_value, private_copy=not inplace)
 
     return value
+
+
+def _set_attr(obj: Any, attr: str, value: Any, private_copy: bool = False):
+    """
+    Set `obj.attr` to `value`. If `obj` is a private copy of a spec-class
+    instance (made in order to be mutated), bypass the frozen check.
+    """
+    if private_copy and getattr(obj, "__spec_class__", None):
+        obj.__setattr__(attr, value, force=True)
+    else:
+        setattr(obj, attr, value)
 
 
 def prepare_attr_value(
